@@ -507,7 +507,9 @@ func getRound(n float64) float64 {
 	if n < 0 && n > -0.5 {
 		// n - math.Floor(n) is not exact in this interval: for the double just
 		// above -0.5 it rounds to exactly 0.5 and would be taken for a tie.
-		return 0
+		// XPath: "If the argument is less than zero, but greater than or equal
+		// to -0.5, then negative zero is returned."
+		return math.Copysign(0, -1)
 	}
 
 	f := math.Floor(n)
